@@ -1,5 +1,6 @@
 import Tally.Model.KeyGen
 import TallyProofs.Lemmas.KeyLemmas
+import TallyProofs.Props.C04
 /-!
 # C05 — key function: deterministic, order independent, rightmost wins, injective
 Property theorems only (helper lemmas live in TallyProofs/Lemmas/KeyLemmas.lean).
@@ -69,5 +70,418 @@ example : key [97] [[([98], [1])]] ≠ key [97] [[([98], [1])], [([98], [2])]] :
 example : key [97] [[([98], [1]), ([99], [2])]] = key [97] [[([99], [2]), ([98], [1])]] :=
   key_order_independent _ _ _ (by intro m hm; simp at hm; subst hm; simp [WF])
     (.cons (List.Perm.swap _ _ _) .nil)
+
+/-! # C05, scope level — same identity ⇒ same live scope; different identity ⇒ nothing shared
+
+Sequential scope model (`Tally/Model/Scope.lean`), no sanitizer configured.  With a sanitizer the
+`…_sanitized_partial` theorems prove the same statements for executions all of whose `Tagged` maps the
+sanitizer leaves unchanged (`sanMap cfg m = canon [m]`; SubScope and metric names may be changed, the
+sanitized name enters the identity).  The full sanitized statements — `Tagged` maps that the sanitizer
+changes, with identities compared after `sanMap` — are NOT proved: they need registry entries under raw
+alias keys in the invariant and the idempotence of `sanitize`.  Helper lemmas:
+`TallyProofs/Lemmas/{CanonLemmas,ScopeLemmas,ScopeSteps}.lean`; `D`, `Derives`, `derivPfx`, `derivTags`
+come from `TallyProofs/Props/C04.lean`.
+-/
+open Tally.Scope Tally.Props.C04
+
+/-- the identity (full prefix, effective tag set) requested by the call `d` on scope `p`
+(the name of a SubScope passes through the name sanitizer, which is the identity without sanitizer) -/
+def reqIdentity (st : St) (p : Nat) : D → Option (Bytes × TagMap)
+  | .sub name => (getScope st p).map fun ps => (fqn st.sep ps.pfx (sanName st.cfg name), ps.tags)
+  | .tagged m => (getScope st p).map fun ps => (ps.pfx, canon [ps.tags, m])
+
+theorem reqIdentity_sub_none {st : St} (h : st.cfg.san = none) (p : Nat) (name : Bytes) :
+    reqIdentity st p (.sub name) = (getScope st p).map fun ps => (fqn st.sep ps.pfx name, ps.tags) := by
+  simp only [reqIdentity, sanName_none h]
+
+/-- (any configuration, `Tagged` maps unchanged by the sanitizer) a returned scope has exactly the
+requested identity -/
+theorem request_result_identity_sanitized_partial {cfg : Cfg} {pfx sep : Bytes} {tags : TagMap} {st : St}
+    (hr : ReachF cfg pfx sep tags st) (d : D) (p sh id : Nat) (hfix : SanFixed cfg (d.op p sh))
+    (evs : List Event) (h : (step st (d.op p sh)).2 = .scope (some id) evs) :
+    ∃ s, getScope (step st (d.op p sh)).1 id = some s ∧ reqIdentity st p d = some (s.pfx, s.tags) := by
+  cases hg : getScope st p with
+  | none =>
+    exfalso
+    cases d <;> (simp only [D.op, step, hg] at h; cases h)
+  | some parent =>
+    cases d with
+    | sub n =>
+      obtain ⟨_, _, s, hs, hp, ht⟩ := sub_result_identity_sanitized_partial hr p parent hg n sh id evs h
+      exact ⟨s, hs, by simp only [reqIdentity, hg, Option.map_some, hp, ht]⟩
+    | tagged m =>
+      obtain ⟨_, _, s, hs, hp, _, ht⟩ :=
+        tagged_result_identity_sanitized_partial hr p parent hg m hfix sh id evs h
+      exact ⟨s, hs, by simp only [reqIdentity, hg, Option.map_some, hp, ht]⟩
+
+/-- a returned scope has exactly the requested identity (no sanitizer) -/
+theorem request_result_identity {cfg : Cfg} {pfx sep : Bytes} {tags : TagMap} {st : St}
+    (hr : Reach cfg pfx sep tags st) (hns : cfg.san = none) (d : D) (p sh id : Nat) (evs : List Event)
+    (h : (step st (d.op p sh)).2 = .scope (some id) evs) :
+    ∃ s, getScope (step st (d.op p sh)).1 id = some s ∧ reqIdentity st p d = some (s.pfx, s.tags) :=
+  request_result_identity_sanitized_partial (hr.toF hns) d p sh id (sanFixed_of_none hns _) evs h
+
+/-! ## 5. different identities never share a scope or a metric -/
+
+/-- two registry entries that point to the same scope carry the same key, and that key decodes to the
+scope's (prefix, tags) only -/
+theorem registry_entries_same_scope_same_key {cfg : Cfg} {pfx sep : Bytes} {tags : TagMap} {st : St}
+    (hr : Reach cfg pfx sep tags st) (hns : cfg.san = none) {sh1 sh2 : Nat} {k1 k2 : Bytes} {sid : Nat}
+    (h1 : ((sh1, k1), sid) ∈ st.reg) (h2 : ((sh2, k2), sid) ∈ st.reg) :
+    k1 = k2 ∧ ∃ s, getScope st sid = some s ∧
+      ∀ p t, k1 = key p [t] → p = s.pfx ∧ canon [t] = s.tags := by
+  have hinv := reach_inv hns hr
+  obtain ⟨s, hg, e1⟩ := hinv.reg sh1 k1 sid h1
+  obtain ⟨s', hg', e2⟩ := hinv.reg sh2 k2 sid h2
+  rw [hg] at hg'; cases hg'
+  refine ⟨e1.trans e2.symm, s, hg, ?_⟩
+  intro p t hk
+  rw [e1] at hk
+  obtain ⟨a, b⟩ := key_inj' hk
+  exact ⟨a.symm, by rw [← b]; exact hinv.canon sid s hg⟩
+
+/-- (any configuration, `Tagged` maps unchanged by the sanitizer) if two sub/tagged requests (the second
+any time after the first) return the same scope id, they requested the same (prefix, tag set) -/
+theorem different_identity_no_merge_sanitized_partial {cfg : Cfg} {pfx sep : Bytes} {tags : TagMap}
+    {st1 : St} (hr : ReachF cfg pfx sep tags st1)
+    (d1 : D) (p1 sh1 id : Nat) (hfix1 : SanFixed cfg (d1.op p1 sh1)) (evs1 : List Event)
+    (h1 : (step st1 (d1.op p1 sh1)).2 = .scope (some id) evs1)
+    (ops : List Op) (hfix : FixedOps cfg ops) (d2 : D) (p2 sh2 : Nat)
+    (hfix2 : SanFixed cfg (d2.op p2 sh2)) (evs2 : List Event)
+    (h2 : (step (runOps (step st1 (d1.op p1 sh1)).1 ops) (d2.op p2 sh2)).2 = .scope (some id) evs2) :
+    reqIdentity st1 p1 d1 = reqIdentity (runOps (step st1 (d1.op p1 sh1)).1 ops) p2 d2 := by
+  obtain ⟨s1, hs1, e1⟩ := request_result_identity_sanitized_partial hr d1 p1 sh1 id hfix1 evs1 h1
+  have hr2 : ReachF cfg pfx sep tags (runOps (step st1 (d1.op p1 sh1)).1 ops) :=
+    (hr.step hfix1).run hfix
+  obtain ⟨s2, hs2, e2⟩ := request_result_identity_sanitized_partial hr2 d2 p2 sh2 id hfix2 evs2 h2
+  obtain ⟨sa, ha, pa, ta, _⟩ := scope_identity_constant_run ops _ id s1 hs1
+  obtain ⟨sb, hb, pb, tb, _⟩ := scope_identity_constant' _ (d2.op p2 sh2) id sa ha
+  rw [hs2] at hb; cases hb
+  rw [e1, e2, pb, tb, pa, ta]
+
+/-- if two sub/tagged requests (the second any time after the first) return the same scope id, they
+requested the same (prefix, tag set): derivations whose prefix or tag set differ never share a scope -/
+theorem different_identity_no_merge {cfg : Cfg} {pfx sep : Bytes} {tags : TagMap} {st1 : St}
+    (hr : Reach cfg pfx sep tags st1) (hns : cfg.san = none)
+    (d1 : D) (p1 sh1 id : Nat) (evs1 : List Event)
+    (h1 : (step st1 (d1.op p1 sh1)).2 = .scope (some id) evs1)
+    (ops : List Op) (d2 : D) (p2 sh2 : Nat) (evs2 : List Event)
+    (h2 : (step (runOps (step st1 (d1.op p1 sh1)).1 ops) (d2.op p2 sh2)).2 = .scope (some id) evs2) :
+    reqIdentity st1 p1 d1 = reqIdentity (runOps (step st1 (d1.op p1 sh1)).1 ops) p2 d2 :=
+  different_identity_no_merge_sanitized_partial (hr.toF hns) d1 p1 sh1 id (sanFixed_of_none hns _) evs1 h1
+    ops (fun op _ => sanFixed_of_none hns op) d2 p2 sh2 (sanFixed_of_none hns _) evs2 h2
+
+/-- a metric request returns an id that lives in the requested scope -/
+theorem metric_result_in_scope (st : St) (op : Op) (sid : Nat) (kind : String) (raw : Bytes)
+    (hk : metricOpKey op = some (sid, kind, raw)) (id : Nat) (evs : List Event)
+    (h : (step st op).2 = .metric id evs) :
+    ∃ s', getScope (step st op).1 sid = some s' ∧
+      (sigs s').find? (fun x => x.2.1 == kind && x.2.2 == sanName st.cfg raw)
+        = some (id, kind, sanName st.cfg raw) ∧ id ∈ ids s' := by
+  obtain ⟨mk, hmk, e1, e2⟩ := step_metricOp st op sid kind raw hk
+  rw [e1] at h
+  obtain ⟨s', hs', hf⟩ := getMetric_result st sid kind raw mk hmk id evs h
+  refine ⟨s', by rw [getScope_congr e2]; exact hs', hf, ?_⟩
+  rw [ids_eq_sigs]
+  exact List.mem_map.mpr ⟨_, List.mem_of_find?_eq_some hf, rfl⟩
+
+/-- metric ids are globally fresh: requests on different scopes never return the same metric
+(any configuration, the second request any time after the first) -/
+theorem different_scope_no_shared_metric {cfg : Cfg} {pfx sep : Bytes} {tags : TagMap} {st1 : St}
+    (hr : Reach cfg pfx sep tags st1)
+    (op1 : Op) (s1 : Nat) (k1 : String) (n1 : Bytes) (hk1 : metricOpKey op1 = some (s1, k1, n1))
+    (id : Nat) (evs1 : List Event) (h1 : (step st1 op1).2 = .metric id evs1)
+    (ops : List Op)
+    (op2 : Op) (s2 : Nat) (k2 : String) (n2 : Bytes) (hk2 : metricOpKey op2 = some (s2, k2, n2))
+    (evs2 : List Event) (h2 : (step (runOps (step st1 op1).1 ops) op2).2 = .metric id evs2) :
+    s1 = s2 := by
+  obtain ⟨a, ha, -, hia⟩ := metric_result_in_scope st1 op1 s1 k1 n1 hk1 id evs1 h1
+  obtain ⟨b, hb, -, hib⟩ := metric_result_in_scope _ op2 s2 k2 n2 hk2 id evs2 h2
+  have hm1 : MetInv (step st1 op1).1 := reach_metInv (hr.step op1)
+  have hlt : id < (step st1 op1).1.nextMetric := hm1.lt id (mem_allIds.mpr ⟨s1, a, ha, hia⟩)
+  have hm2 : MetInv (runOps (step st1 op1).1 ops) := reach_metInv ((hr.step op1).run ops)
+  have hext : Ext (step st1 op1).1 (step (runOps (step st1 op1).1 ops) op2).1 :=
+    (runOps_ext ops _ hm1).trans (step_ext _ op2 hm2)
+  obtain ⟨b0, hb0, hib0⟩ := hext.noMigrate id hlt s2 b hb hib
+  exact hm1.unique ha hb0 hia hib0
+
+/-- within one state: an id is in at most one scope -/
+theorem metric_id_in_one_scope {cfg : Cfg} {pfx sep : Bytes} {tags : TagMap} {st : St}
+    (hr : Reach cfg pfx sep tags st) {sid sid' : Nat} {s s' : ScopeS} {i : Nat}
+    (h1 : getScope st sid = some s) (h2 : getScope st sid' = some s') (hi : i ∈ ids s) (hi' : i ∈ ids s') :
+    sid = sid' := (reach_metInv hr).unique h1 h2 hi hi'
+
+/-- asking a live scope twice for a metric of the same kind and name returns the same metric
+(any configuration; the second request any time after the first, the scope not closed) -/
+theorem same_metric_twice {cfg : Cfg} {pfx sep : Bytes} {tags : TagMap} {st1 : St}
+    (hr : Reach cfg pfx sep tags st1)
+    (op1 op2 : Op) (sid : Nat) (kind : String) (raw : Bytes)
+    (hk1 : metricOpKey op1 = some (sid, kind, raw)) (hk2 : metricOpKey op2 = some (sid, kind, raw))
+    (id : Nat) (evs1 : List Event) (h1 : (step st1 op1).2 = .metric id evs1)
+    (ops : List Op) (s2 : ScopeS) (hs2 : getScope (runOps (step st1 op1).1 ops) sid = some s2)
+    (hlive : s2.closed = false) :
+    (step (runOps (step st1 op1).1 ops) op2).2 = .metric id [] := by
+  obtain ⟨a, ha, hfa, -⟩ := metric_result_in_scope st1 op1 sid kind raw hk1 id evs1 h1
+  have hm0 : MetInv st1 := reach_metInv hr
+  have hm1 : MetInv (step st1 op1).1 := reach_metInv (hr.step op1)
+  have hext := runOps_ext ops _ hm1
+  obtain ⟨b, hb, _, _, _, _, hpre⟩ := hext.scope sid a ha
+  rw [hs2] at hb; cases hb
+  have hcfg : (runOps (step st1 op1).1 ops).cfg = st1.cfg := hext.cfg.trans (step_ext st1 op1 hm0).cfg
+  have hf2 := find?_of_prefix (hpre hlive) hfa
+  obtain ⟨mk, _, e1, _⟩ := step_metricOp (runOps (step st1 op1).1 ops) op2 sid kind raw hk2
+  rw [e1, getMetric_found _ sid kind raw mk s2 hs2 id (by rw [hcfg]; exact hf2)]
+
+/-! ## 6. the same identity is answered with the same live scope -/
+
+/-- core (any configuration, `Tagged` maps unchanged by the sanitizer): in a state reached by a program
+whose shards are a function of the raw key, a request for the identity of a live scope returns that scope
+and changes nothing -/
+theorem same_identity_same_scope_core_sanitized_partial {f : Bytes → Nat} {cfg : Cfg} {pfx sep : Bytes}
+    {tags : TagMap} {st : St} (hr : ReachSF f cfg pfx sep tags st)
+    (hsh : ∀ k, f k < max cfg.shards 1)
+    (d : D) (p sh : Nat) (parent : ScopeS) (hp : getScope st p = some parent)
+    (hpl : parent.closed = false) (hrc : st.rootClosed = false)
+    (hws : WellSharded (fun k sh => sh = f k) st (d.op p sh))
+    (id : Nat) (s : ScopeS) (hs : getScope st id = some s) (hlive : s.closed = false)
+    (hid : reqIdentity st p d = some (s.pfx, s.tags)) :
+    step st (d.op p sh) = (st, .scope (some id) []) := by
+  have hl := reachSF_liveReg hr
+  have hinv := reachF_inv hr.reachF
+  have hcfg := reach_cfg hr.reachF.reach
+  have hlook : ∀ rawKey, rawKey = key s.pfx [s.tags] → sh = f rawKey →
+      st.reg.lookup (sh, rawKey) = some id := by
+    intro rawKey e1 e2
+    rw [e1]
+    refine hl id s hs hlive sh (fun _ => by rw [e2, e1]) (fun _ => ?_)
+    rw [e2, hcfg]; exact hsh _
+  cases d with
+  | sub n =>
+    simp only [reqIdentity, hp, Option.map_some, Option.some.injEq, Prod.mk.injEq] at hid
+    have hws' := hws parent hp
+    simp only [D.op, step, hp]
+    apply subscope_hit hp hpl hrc _ _ sh id s _ hs hlive
+    apply hlook _ _ hws'
+    rw [key_pair_eq, canon_pair_nil, hinv.canon p parent hp, hid.1, hid.2]
+  | tagged m =>
+    simp only [reqIdentity, hp, Option.map_some, Option.some.injEq, Prod.mk.injEq] at hid
+    have hws' := hws parent hp
+    simp only [D.op, step, hp]
+    apply subscope_hit hp hpl hrc _ _ sh id s _ hs hlive
+    apply hlook _ _ hws'
+    rw [key_pair_eq, hid.1, hid.2]
+
+/-- core: in a state reached by a program whose shards are a function of the raw key, a request for
+the identity of a live scope returns that scope and changes nothing -/
+theorem same_identity_same_scope_core {f : Bytes → Nat} {cfg : Cfg} {pfx sep : Bytes} {tags : TagMap}
+    {st : St} (hr : ReachS f cfg pfx sep tags st) (hns : cfg.san = none)
+    (hsh : ∀ k, f k < max cfg.shards 1)
+    (d : D) (p sh : Nat) (parent : ScopeS) (hp : getScope st p = some parent)
+    (hpl : parent.closed = false) (hrc : st.rootClosed = false)
+    (hws : WellSharded (fun k sh => sh = f k) st (d.op p sh))
+    (id : Nat) (s : ScopeS) (hs : getScope st id = some s) (hlive : s.closed = false)
+    (hid : reqIdentity st p d = some (s.pfx, s.tags)) :
+    step st (d.op p sh) = (st, .scope (some id) []) :=
+  same_identity_same_scope_core_sanitized_partial (hr.toSF hns) hsh d p sh parent hp hpl hrc hws id s hs
+    hlive hid
+
+/-- if a scope `id` was returned for an identity and neither it nor the root has been closed since,
+a later request for the same identity returns the same `id` -/
+theorem same_identity_same_scope {f : Bytes → Nat} {cfg : Cfg} {pfx sep : Bytes} {tags : TagMap}
+    {st1 : St} (hr : ReachS f cfg pfx sep tags st1) (hns : cfg.san = none)
+    (hsh : ∀ k, f k < max cfg.shards 1)
+    (d1 : D) (p1 sh1 id : Nat) (evs1 : List Event)
+    (hws1 : WellSharded (fun k sh => sh = f k) st1 (d1.op p1 sh1))
+    (h1 : (step st1 (d1.op p1 sh1)).2 = .scope (some id) evs1)
+    (ops : List Op) (hops : ShardedOps f (step st1 (d1.op p1 sh1)).1 ops)
+    (d2 : D) (p2 sh2 : Nat)
+    (hws2 : WellSharded (fun k sh => sh = f k) (runOps (step st1 (d1.op p1 sh1)).1 ops) (d2.op p2 sh2))
+    (parent2 : ScopeS) (hp2 : getScope (runOps (step st1 (d1.op p1 sh1)).1 ops) p2 = some parent2)
+    (hpl : parent2.closed = false) (hrc : (runOps (step st1 (d1.op p1 sh1)).1 ops).rootClosed = false)
+    (s : ScopeS) (hs : getScope (runOps (step st1 (d1.op p1 sh1)).1 ops) id = some s)
+    (hlive : s.closed = false)
+    (hsame : reqIdentity (runOps (step st1 (d1.op p1 sh1)).1 ops) p2 d2 = reqIdentity st1 p1 d1) :
+    step (runOps (step st1 (d1.op p1 sh1)).1 ops) (d2.op p2 sh2)
+      = (runOps (step st1 (d1.op p1 sh1)).1 ops, .scope (some id) []) := by
+  obtain ⟨s1, hs1, e1⟩ := request_result_identity hr.reach hns d1 p1 sh1 id evs1 h1
+  obtain ⟨sa, ha, pa, ta, _⟩ := scope_identity_constant_run ops _ id s1 hs1
+  rw [hs] at ha; cases ha
+  have hr1 : ReachS f cfg pfx sep tags (step st1 (d1.op p1 sh1)).1 :=
+    hr.run (ops := [d1.op p1 sh1]) ⟨hws1, trivial⟩
+  have hr2 := hr1.run hops
+  exact same_identity_same_scope_core hr2 hns hsh d2 p2 sh2 parent2 hp2 hpl hrc hws2 id s hs hlive
+    (by rw [hsame, e1, pa, ta])
+
+/-- derivations executed by a program whose shards are a function of the raw key -/
+inductive DerivesS (f : Bytes → Nat) : St → List D → St → Nat → Prop
+  | root (st0 : St) : DerivesS f st0 [] st0 0
+  | others {st0 : St} {ds : List D} {st : St} {id : Nat} (ops : List Op) :
+      DerivesS f st0 ds st id → ShardedOps f st ops → DerivesS f st0 ds (runOps st ops) id
+  | call {st0 : St} {ds : List D} {st : St} {p : Nat} (d : D) (sh id : Nat) (evs : List Event) :
+      DerivesS f st0 ds st p → WellSharded (fun k sh => sh = f k) st (d.op p sh) →
+      (step st (d.op p sh)).2 = .scope (some id) evs →
+      DerivesS f st0 (ds ++ [d]) (step st (d.op p sh)).1 id
+
+theorem DerivesS.derives {f : Bytes → Nat} {st0 st : St} {ds : List D} {id : Nat}
+    (h : DerivesS f st0 ds st id) : Derives st0 ds st id := by
+  induction h with
+  | root => exact .root _
+  | others ops _ _ ih => exact .others ops ih
+  | call d sh id evs _ _ ho ih => exact .call d sh id evs ih ho
+
+theorem DerivesS.reachS {f : Bytes → Nat} {cfg : Cfg} {pfx sep : Bytes} {tags : TagMap} {st0 st : St}
+    {ds : List D} {id : Nat} (h : DerivesS f st0 ds st id) (hr : ReachS f cfg pfx sep tags st0) :
+    ReachS f cfg pfx sep tags st := by
+  induction h with
+  | root => exact hr
+  | others ops _ ho ih => exact ih.run ho
+  | call d sh id evs _ hw _ ih => exact ih.run (ops := [d.op _ sh]) ⟨hw, trivial⟩
+
+/-- two derivations from the same root that end with the same full prefix and the same effective
+tag set return the very same live scope: the last call of the second derivation returns the scope the
+first derivation ended in (which is live, as is the root) and changes nothing -/
+theorem same_derived_identity_same_scope {f : Bytes → Nat} {cfg : Cfg} {pfx sep : Bytes} {tags : TagMap}
+    (hns : cfg.san = none) (hsh : ∀ k, f k < max cfg.shards 1)
+    {ds1 ds2 : List D} {st : St} {id1 p : Nat}
+    (h1 : DerivesS f (mkRoot cfg pfx sep tags) ds1 st id1)
+    (h2 : DerivesS f (mkRoot cfg pfx sep tags) ds2 st p)
+    (d : D) (sh : Nat) (hws : WellSharded (fun k sh => sh = f k) st (d.op p sh))
+    (s1 : ScopeS) (hs1 : getScope st id1 = some s1) (hl1 : s1.closed = false)
+    (parent : ScopeS) (hp : getScope st p = some parent) (hpl : parent.closed = false)
+    (hrc : st.rootClosed = false)
+    (hpfx : derivPfx (if sep.isEmpty then [46] else sep) pfx (ds2 ++ [d])
+      = derivPfx (if sep.isEmpty then [46] else sep) pfx ds1)
+    (htags : derivTags (canon [tags]) (ds2 ++ [d]) = derivTags (canon [tags]) ds1) :
+    step st (d.op p sh) = (st, .scope (some id1) []) := by
+  have hroot : ReachS f cfg pfx sep tags (mkRoot cfg pfx sep tags) := ⟨[], trivial, rfl⟩
+  have hr := h1.reachS hroot
+  obtain ⟨a, ha, hap⟩ := name_follows_derivation hns h1.derives
+  obtain ⟨a', ha', hat⟩ := tags_follow_derivation hns h1.derives
+  rw [hs1] at ha ha'; cases ha; cases ha'
+  obtain ⟨b, hb, hbp⟩ := name_follows_derivation hns h2.derives
+  obtain ⟨b', hb', hbt⟩ := tags_follow_derivation hns h2.derives
+  rw [hp] at hb hb'; cases hb; cases hb'
+  have hsep : st.sep = (if sep.isEmpty then [46] else sep) := by
+    rw [(cfg_sep_constant hr.reach).2, sanName_none hns]
+  apply same_identity_same_scope_core hr hns hsh d p sh parent hp hpl hrc hws id1 s1 hs1 hl1
+  rw [hap, hat, ← hpfx, ← htags, derivPfx_snoc, derivTags_snoc]
+  cases d with
+  | sub n =>
+    have hns' : st.cfg.san = none := by rw [reach_cfg hr.reach]; exact hns
+    simp only [reqIdentity, hp, Option.map_some, hsep, hbp, hbt, sanName_none hns']; rfl
+  | tagged m => simp only [reqIdentity, hp, Option.map_some, hbp, hbt]; rfl
+
+/-- `s.Tagged(m).Tagged(m)` is `s.Tagged(m)` -/
+theorem tagged_idempotent {f : Bytes → Nat} {cfg : Cfg} {pfx sep : Bytes} {tags : TagMap}
+    (hns : cfg.san = none) (hsh : ∀ k, f k < max cfg.shards 1)
+    {ds : List D} {m : TagMap} {st : St} {a : Nat}
+    (h : DerivesS f (mkRoot cfg pfx sep tags) (ds ++ [.tagged m]) st a)
+    (sh : Nat) (hws : WellSharded (fun k sh => sh = f k) st (.tagged a m sh))
+    (sa : ScopeS) (hsa : getScope st a = some sa) (hla : sa.closed = false)
+    (hrc : st.rootClosed = false) :
+    step st (.tagged a m sh) = (st, .scope (some a) []) := by
+  refine same_derived_identity_same_scope hns hsh h h (.tagged m) sh hws sa hsa hla sa hsa hla hrc ?_ ?_
+  · rw [derivPfx_snoc]
+  · rw [derivTags_snoc, derivTags_snoc]
+    exact canon_overlay_idem _ m
+
+/-- `s.Tagged(m2).Tagged(m1)` is `s.Tagged(m1).Tagged(m2)` for maps with disjoint key sets -/
+theorem tagged_order_independent {f : Bytes → Nat} {cfg : Cfg} {pfx sep : Bytes} {tags : TagMap}
+    (hns : cfg.san = none) (hsh : ∀ k, f k < max cfg.shards 1)
+    {ds : List D} {m1 m2 : TagMap} (hdisj : ∀ k, k ∈ m1.map (·.1) → k ∉ m2.map (·.1))
+    {st : St} {b c : Nat}
+    (h12 : DerivesS f (mkRoot cfg pfx sep tags) (ds ++ [.tagged m1] ++ [.tagged m2]) st b)
+    (h2 : DerivesS f (mkRoot cfg pfx sep tags) (ds ++ [.tagged m2]) st c)
+    (sh : Nat) (hws : WellSharded (fun k sh => sh = f k) st (.tagged c m1 sh))
+    (sb : ScopeS) (hsb : getScope st b = some sb) (hlb : sb.closed = false)
+    (sc : ScopeS) (hsc : getScope st c = some sc) (hlc : sc.closed = false)
+    (hrc : st.rootClosed = false) :
+    step st (.tagged c m1 sh) = (st, .scope (some b) []) := by
+  refine same_derived_identity_same_scope hns hsh h12 h2 (.tagged m1) sh hws sb hsb hlb sc hsc hlc hrc ?_ ?_
+  · simp only [derivPfx_snoc]
+  · simp only [derivTags_snoc]
+    exact (canon_overlay_comm _ m1 m2 hdisj).symm
+
+/-- `s.Tagged(m1 ∪ m2)` is `s.Tagged(m1).Tagged(m2)`; as association list the union is `m2 ++ m1`
+(first entry of a key wins, so `m2` overrides `m1`); for disjoint key sets also `m1 ++ m2` -/
+theorem tagged_union {f : Bytes → Nat} {cfg : Cfg} {pfx sep : Bytes} {tags : TagMap}
+    (hns : cfg.san = none) (hsh : ∀ k, f k < max cfg.shards 1)
+    {ds : List D} {m1 m2 mu : TagMap}
+    (hmu : mu = m2 ++ m1 ∨ (mu = m1 ++ m2 ∧ ∀ k, k ∈ m1.map (·.1) → k ∉ m2.map (·.1)))
+    {st : St} {b p : Nat}
+    (h12 : DerivesS f (mkRoot cfg pfx sep tags) (ds ++ [.tagged m1] ++ [.tagged m2]) st b)
+    (h0 : DerivesS f (mkRoot cfg pfx sep tags) ds st p)
+    (sh : Nat) (hws : WellSharded (fun k sh => sh = f k) st (.tagged p mu sh))
+    (sb : ScopeS) (hsb : getScope st b = some sb) (hlb : sb.closed = false)
+    (sp : ScopeS) (hsp : getScope st p = some sp) (hlp : sp.closed = false)
+    (hrc : st.rootClosed = false) :
+    step st (.tagged p mu sh) = (st, .scope (some b) []) := by
+  refine same_derived_identity_same_scope hns hsh h12 h0 (.tagged mu) sh hws sb hsb hlb sp hsp hlp hrc ?_ ?_
+  · simp only [derivPfx_snoc]
+  · simp only [derivTags_snoc]
+    rcases hmu with rfl | ⟨rfl, hd⟩
+    · exact (canon_overlay_append _ m1 m2).symm
+    · show canon [_, m1 ++ m2] = canon [canon [_, m1], m2]
+      rw [canon_append_comm _ m1 m2 hd]
+      exact (canon_overlay_append _ m1 m2).symm
+
+/-! ## non-vacuity of the scope-level theorems: concrete programs (one shard, `shardOf = 0`) -/
+
+namespace Example
+open Tally.Props.C04.Example
+
+/-- shard function of a one-shard registry -/
+def f0 : Bytes → Nat := fun _ => 0
+
+theorem f0_lt : ∀ k, f0 k < max cfg0.shards 1 := fun _ => show 0 < max 1 1 by decide
+
+/-- after `root.Tagged({k: v})` (returns scope 1) -/
+def sa : St := (step root0 (.tagged 0 m0 0)).1
+
+/-- `different_identity_no_merge`: the same request twice returns scope 1 both times -/
+example : (step root0 ((D.tagged m0).op 0 0)).2 = .scope (some 1) [] := rfl
+example : (step (runOps (step root0 ((D.tagged m0).op 0 0)).1 [.report]) ((D.tagged m0).op 0 0)).2
+    = .scope (some 1) [] := rfl
+
+/-- … while a different tag map gets a different scope -/
+example : (step sa ((D.tagged [([107], [119])]).op 0 0)).2 = .scope (some 2) [] := rfl
+
+/-- the program `root.Tagged({k: v})` is well sharded -/
+theorem reachS_sa : ReachS f0 cfg0 [97] [] [] sa :=
+  ⟨[.tagged 0 m0 0], ⟨fun _ _ => rfl, trivial⟩, rfl⟩
+
+/-- `same_identity_same_scope_core` applies to `root.Tagged({k: v})` in `sa` and yields scope 1 -/
+example : step sa (.tagged 0 m0 0) = (sa, .scope (some 1) []) := by
+  obtain ⟨s, hs⟩ : ∃ s, getScope sa 1 = some s := ⟨_, rfl⟩
+  obtain ⟨r, hr⟩ : ∃ r, getScope sa 0 = some r := ⟨_, rfl⟩
+  have h1 : s.closed = false := by cases hs; rfl
+  have h2 : r.closed = false := by cases hr; rfl
+  refine same_identity_same_scope_core reachS_sa rfl f0_lt (.tagged m0) 0 0 r hr h2 rfl
+    (fun _ _ => rfl) 1 s hs h1 ?_
+  cases hs; cases hr; rfl
+
+/-- `tagged_idempotent`: `root.Tagged({k: v}).Tagged({k: v})` is `root.Tagged({k: v})` -/
+theorem derivesS_sa : DerivesS f0 root0 ([] ++ [.tagged m0]) sa 1 :=
+  .call (ds := []) (.tagged m0) 0 1 [] (.root root0) (fun _ _ => rfl) rfl
+
+example : step sa (.tagged 1 m0 0) = (sa, .scope (some 1) []) := by
+  obtain ⟨s, hs⟩ : ∃ s, getScope sa 1 = some s := ⟨_, rfl⟩
+  have h1 : s.closed = false := by cases hs; rfl
+  exact tagged_idempotent rfl f0_lt derivesS_sa 0 (fun _ _ => rfl) s hs h1 rfl
+
+/-- `same_metric_twice`: the counter `c` of scope 1, asked again after an increment and a report -/
+example : (step sa (.counter 1 [99])).2 = .metric 0 [] := rfl
+example : (step (runOps (step sa (.counter 1 [99])).1 [.inc 0 3, .report]) (.counter 1 [99])).2
+    = .metric 0 [] := by
+  obtain ⟨s, hs⟩ : ∃ s, getScope (runOps (step sa (.counter 1 [99])).1 [.inc 0 3, .report]) 1 = some s :=
+    ⟨_, rfl⟩
+  have h1 : s.closed = false := by cases hs; rfl
+  exact same_metric_twice (cfg := cfg0) (pfx := [97]) (sep := []) (tags := []) ⟨[.tagged 0 m0 0], rfl⟩
+    (.counter 1 [99]) (.counter 1 [99]) 1 "counter" [99] rfl rfl 0 [] rfl [.inc 0 3, .report] s hs h1
+
+/-- a gauge of the same name on the same scope is a different metric -/
+example : (step (step sa (.counter 1 [99])).1 (.gauge 1 [99])).2 = .metric 1 [] := rfl
+
+end Example
 
 end Tally.Props.C05
